@@ -11,7 +11,7 @@ from harness import gen_values as gv
 from harness import valcodec as vc
 
 STREAMS = ['codec-valid', 'codec-large', 'codec-small-types', 'codec-malformed-values', 'codec-malformed-data']
-THEOREMS = ['Spec.decode_encode', 'C01_roundtrip', 'C01_roundtrip_valid', 'C01_roundtrip_conf', 'C01_roundtrip_checked']
+THEOREMS = ['Spec.decode_encode', 'C01_roundtrip', 'C01_roundtrip_valid', 'C01_roundtrip_conf', 'C01_roundtrip_checked', 'C01_marshal_arity']
 TRUSTED_BASE = [
     "CPython struct.pack/unpack_from, codecs utf-8/ascii, dict, zip/generators, int->float conversion: mirrored in "
     "Wire/Code.lean (pack, unpackFrom, utf8*, buildDict, marshalSeq, intToDouble), validated by the streams, not proved",
